@@ -304,7 +304,8 @@ extern MPT_INTERFACE(metatype) *_mpt_iterator_range(MPT_STRUCT(value) *val)
 			errno = ERANGE;
 			return 0;
 		}
-		iv = (r.max - r.min) / step;
+		/* quotient of an integral step count may fall short by rounding */
+		iv = (r.max - r.min) / step * (1 + 4 * DBL_EPSILON);
 	}
 	if (!(data = malloc(sizeof(*data)))) {
 		return 0;
